@@ -431,6 +431,10 @@ class Atoms(object):
             r = ('and' if isinstance(x.op, ast.And) else 'or', [self.formula(v) for v in x.values])
         elif isinstance(x, ast.UnaryOp) and isinstance(x.op, ast.Not):
             r = ('not', [self.formula(x.operand)])
+        elif isinstance(x, ast.Call) and isinstance(x.func, ast.Name) and x.func.id == 'bool' and len(x.args) == 1 and not x.keywords:
+            r = self.formula(x.args[0])
+        elif isinstance(x, ast.Constant) and isinstance(x.value, bool):
+            r = ('const', x.value)
         elif isinstance(x, ast.Compare) and len(x.ops) > 1:
             terms = [x.left] + list(x.comparators)
             r = ('and', [self.formula(ast.Compare(left=terms[i], ops=[x.ops[i]], comparators=[terms[i + 1]])) for i in range(len(x.ops))])
@@ -449,6 +453,8 @@ class Atoms(object):
     def val(self, f, env):
         if f is None:
             return None
+        if f[0] == 'const':
+            return f[1]
         if f[0] == 'atom':
             v = env.get(f[1])
             return None if v is None else (v == f[2])
